@@ -61,6 +61,15 @@ class ValueEval(order.Evaluator):
                 if r is not None:
                     return r
             return None
+        if k == "Tuple":
+            if isinstance(v, tuple) and len(v) == len(p.get("pats", [])) and not (v and isinstance(v[0], str)):
+                e2 = env
+                for q, x in zip(p["pats"], v):
+                    e2 = self.match_pat(q, x, e2)
+                    if e2 is None:
+                        return None
+                return e2
+            raise L.Unsupported(p, "tuple pattern on a non-tuple value")
         if k == "TupleStruct":
             name = (p.get("path") or "").split("::")[-1]
             if name in ("Ok", "Some", "Err"):
